@@ -1,6 +1,6 @@
 (* the property-level statements of layer L2 and their proofs from the layer's theorems (the Props*.v files only [exact] these) *)
 From stdpp Require Import list numbers option.
-From L2 Require Import Model Base Own Jobs Shape DwInv Pool Fut Sig Task TaskInv Wake WakeInv Term Susp.
+From L2 Require Import Model Base Own Jobs Shape DwInv Pool OpShape Fut Sig Task TaskInv Wake WakeInv Term Complete Susp.
 
 (* ---------- C01 ---------- *)
 Definition C01_full : Prop :=
@@ -110,22 +110,43 @@ Definition C07_task_parts : Prop :=
 Lemma C07_task_parts_main : C07_task_parts.
 Proof. exact reachable_task_parts. Qed.
 
-(* ---------- statements of this layer that are NOT proved (kept for the record; see the header of the Props files) ---------- *)
-(* C07 / C06: with at least one pool runner, in a terminal state with all events fired every caller has finished its script
-   (needs the task-wake invariant [Task.task_ok], which has only been tested on runs) *)
+(* C07 / C06, complete form: with at least one pool runner, in a terminal state with all events fired every caller has finished its
+   script: every task awaiting a future was woken and completed, every blocked sync caller was released *)
 Definition done_actor (st : list frame) : Prop := st = [FTop []] \/ st = [FPIdle].
 Definition C07_complete_full : Prop :=
   forall (T : ftables), all_cond T ->
   forall scripts npool nev tr s, npool >= 1 -> run T (init scripts npool nev) tr = Some s -> terminal T s -> all_fired s ->
   forall c st, stacks s !! c = Some st -> done_actor st.
+Lemma C07_complete_main : C07_complete_full.
+Proof. intros T HA scripts npool nev tr s Hn Hr Ht Hf c st Hc. by eapply C07_complete. Qed.
+(* the task-wake invariant itself (Task.v): the first await frame of every stack carries its wake-up guarantee [tw]; a caller blocked
+   in sync_background still has its job; the result is known missing where drain_queue stores the waker; a missing result still has
+   its signalling job *)
+Definition C07_task_invariant : Prop :=
+  forall (T : ftables), all_cond T -> forall scripts npool nev tr s, run T (init scripts npool nev) tr = Some s -> Inv_task s.
+Lemma C07_task_invariant_main : C07_task_invariant.
+Proof. intros T HA scripts npool nev tr s Hr. apply (i2_task _ (reachable_all2 T HA _ _ _ _ _ Hr)). Qed.
+(* everything of C07 that this layer states *)
+Definition C07_full : Prop := C07_safety /\ C07_value /\ C07_waker_steps /\ C07_task_invariant /\ C07_complete_full.
+Lemma C07_full_main : C07_full.
+Proof. split; [apply C07_safety_main|]. split; [apply C07_value_main|]. split; [apply C07_waker_steps_main|]. split; [apply C07_task_invariant_main|apply C07_complete_main]. Qed.
+
+(* ---------- statements of this layer that are NOT (yet) proved ---------- *)
 (* C06 / C07 with ZERO pool runners: one caller that only schedules plain / future jobs and awaits (or detaches) its futures - no
    sync, no suspend - and any number of callers that only fire events: the awaiting caller finishes its script *)
+Definition sigfree (body : list fprim) : Prop := Forall (fun p => match p with PSignal _ => False | _ => True end) body.
 Definition await_only (sc : list cop) : Prop :=
-  Forall (fun o => match o with ODesync => True | OFuture _ UAwait | OFuture _ UDetach => True | _ => False end) sc.
+  Forall (fun o => match o with ODesync => True | OFuture body UAwait | OFuture body UDetach => sigfree body | _ => False end) sc.
 Definition fire_only (sc : list cop) : Prop := Forall (fun o => match o with OFire _ => True | _ => False end) sc.
 Definition C06_zero_pool_full : Prop :=
   forall (T : ftables), all_cond T ->
   forall sc0 others nev tr s, await_only sc0 -> Forall fire_only others ->
+  run T (init (sc0 :: others) 0 nev) tr = Some s -> terminal T s -> all_fired s ->
+  stacks s !! 0 = Some [FTop []].
+(* the same WITHOUT the side condition on the awaiting caller (any script): refuted, see Examples.C06_zero_pool_needs_side_condition_refuted *)
+Definition C06_zero_pool_any_script : Prop :=
+  forall (T : ftables), all_cond T ->
+  forall sc0 others nev tr s, Forall fire_only others ->
   run T (init (sc0 :: others) 0 nev) tr = Some s -> terminal T s -> all_fired s ->
   stacks s !! 0 = Some [FTop []].
 (* C13 (suspend), state form.  After its first prim (signal finished_suspending) the suspend job is a started future operation whose
